@@ -479,6 +479,11 @@ func (c *Cluster) RunJob(parent context.Context, rs *runState, request *pbssinte
 	return svc.TestProcessRange(ctx, request, func(substreams.ResponseFromAnyTier) error { return nil })
 }
 
+// RunJobDirect runs one tier2 job for an externally driven scheduler.
+func (c *Cluster) RunJobDirect(parent context.Context, request *pbssinternal.ProcessRangeRequest, tag string) error {
+	return c.RunJob(parent, &runState{cl: c, res: &Result{}}, request, tag)
+}
+
 // StandaloneJob runs one tier2 job outside any tier1 request (e.g. to obtain partial files).
 func (c *Cluster) StandaloneJob(mods *pbsubstreams.Modules, output string, stageIdx int, segment uint64) error {
 	rs := &runState{cl: c, res: &Result{}}
@@ -570,6 +575,10 @@ func (c *Cluster) Run(spec RequestSpec) *Result {
 	rs.closed = true
 	rs.mu.Unlock()
 	cancel()
+	// cancelled jobs may still be unwinding: wait for them so that nothing touches res afterwards
+	for i := 0; i < 2000 && atomic.LoadInt32(&rs.inFlight) > 0; i++ {
+		time.Sleep(5 * time.Millisecond)
+	}
 	// let stray goroutines (walker / worker) try to send late messages
 	time.Sleep(2 * time.Millisecond)
 	res.Execs = native.TakeLog()
